@@ -199,7 +199,8 @@ def generate(rng, tier, cls):
         sched = ['P1'] * 60 + ['R1', 'D1', 'R1', 'D2'] + ['R1'] * 40
         rng.shuffle(sched)
 
-    return {'actors': [prod] + cs, 'schedule': sched, 'faults': faults}
+    return {'actors': [prod] + cs, 'schedule': sched, 'faults': faults,
+            'noise': pipe.gen_noise(rng, 0.15)}
 
 
 def check_parse_error(out, tag, info, data):
@@ -237,6 +238,7 @@ def execute(scn, L):
 
         actors.append(a)
 
+    pipe.run_noise(scn, L, out)
     w = pipe.make_world(scn, L, actors)
     w.run()
     out.absorb(w)
